@@ -353,6 +353,74 @@ fn converse_case(i: u64, seed: u64, out: &mut CaseOut) {
     }
 }
 
+/// Order under a race with a *disjoint* change: the replica's pending operations span several
+/// versions and one of its add_version calls is rejected because another writer's version (touching
+/// a different task) arrived first. Nothing conflicts, so what the replica sends — concatenated over
+/// its accepted versions — must still be exactly the committed operations, in order.
+fn race_case(i: u64, seed: u64, out: &mut CaseOut) {
+    let mut rng = Rng::derive(seed, "c14-race", i);
+    let replay = json!({"stratum": "race-disjoint", "index": i});
+    let chain = ChainRef::new();
+    let mut r = new_replica(0, StoreKind::Mem, &chain);
+    let t = rng.uuid();
+    let other = rng.uuid();
+    let n_props = 3 + rng.below(4);
+    let mut ops = Operations::new();
+    ops.push(Operation::Create { uuid: t });
+    for k in 0..n_props {
+        let size = if rng.chance(2, 3) { 300_000 + rng.below(500_000) } else { 10 };
+        let mut v = format!("v{k}-");
+        v.extend(std::iter::repeat('q').take(size));
+        ops.push(Operation::Update { uuid: t, property: format!("p{k}"), old_value: None, value: Some(v), timestamp: ts(k as i64) });
+    }
+    let committed: Vec<MOp> = ops.iter().filter_map(model::from_operation).collect();
+    if block_on(r.rep.commit_operations(ops)).is_err() {
+        out.inconclusive = Some("commit failed".into());
+        return;
+    }
+    // the racing writer's version lands right before the replica's n-th add_version
+    let foreign = model::encode_version(&[MOp::Create(other), MOp::Update { uuid: other, prop: "x".into(), value: Some("foreign".into()), ts: ts(50) }]);
+    let nth = 1 + rng.below(3) as u64;
+    chain.0.borrow_mut().inject_on_add.push((0, nth, foreign.clone()));
+    if rng.chance(1, 3) {
+        chain.0.borrow_mut().inject_on_add.push((0, nth + 2, model::encode_version(&[MOp::Update { uuid: other, prop: "y".into(), value: Some("foreign2".into()), ts: ts(51) }])));
+    }
+    chain.0.borrow_mut().reset_requests();
+    if let Err(e) = sync(&mut r, &chain, false) {
+        out.violate("race/sync-error".to_string(), format!("{e:#}"), replay);
+        return;
+    }
+    let c = chain.0.borrow();
+    let rejected = c.events.iter().filter(|e| matches!(e, Ev::Add { client: 0, accepted: None, .. })).count();
+    let mut sent: Vec<MOp> = vec![];
+    let mut n_versions = 0;
+    for v in c.versions.iter().filter(|v| v.client == 0) {
+        n_versions += 1;
+        match validate_segment(&v.bytes) {
+            Ok(o) => sent.extend(o),
+            Err(e) => {
+                out.violate("format/race".to_string(), e, replay);
+                return;
+            }
+        }
+    }
+    out.count("race_syncs", 1);
+    out.count("race_rejections", rejected as u64);
+    if sent != committed {
+        let pos = sent.iter().zip(committed.iter()).position(|(a, b)| a != b).unwrap_or(sent.len().min(committed.len()));
+        out.violate(
+            "order-or-content/after-rejection".to_string(),
+            format!("after {rejected} rejected add_version(s) the {n_versions} versions sent differ from the committed operations at position {pos}: sent {:?} committed {:?}", sent.iter().map(|o| model::trunc(&o.short())).collect::<Vec<_>>(), committed.iter().map(|o| model::trunc(&o.short())).collect::<Vec<_>>()),
+            replay,
+        );
+        return;
+    }
+    if rejected > 0 && n_versions >= 2 {
+        out.count("race_rejections_in_multi_version_syncs", 1);
+        out.nontrivial = Some(fnv(format!("race{i}").as_bytes()));
+    }
+}
+
 pub fn run(ctx: &Ctx) -> Outcome {
     let mut acc = Acc::default();
     let seed = ctx.seed;
@@ -376,13 +444,22 @@ pub fn run(ctx: &Ctx) -> Outcome {
             out
         });
     }
+    if want("race-disjoint") {
+        let (lo, hi) = range(ctx.tier.pick(60, 3000));
+        run_cases(&mut acc, "race-disjoint", hi - lo, |i| {
+            let mut out = CaseOut::new();
+            race_case(i + lo, seed, &mut out);
+            out
+        });
+    }
     if only.is_none() {
+        acc.require("race_rejections_in_multi_version_syncs", 5, "no multi-version sync saw a rejected add_version");
         acc.require("segments_validated", 100, "too few history segments seen at the Server boundary");
         acc.require("hand_written_versions_applied", 100, "too few hand-written versions applied");
     }
     Outcome {
         level: "exploration",
-        rule: "forward: single-replica flows of valid operations with hostile strings, sub-second timestamps, undo points, deletes of populated tasks and marker-carrying old values, every segment at the Server boundary validated strictly and compared (order and content) with the committed operations; converse: hand-written documents (field order, whitespace, \\u escapes, 0/3/6/9-digit timestamps, invalid-but-well-formed operations) pre-loaded on the harness server and applied by a fresh replica, compared with the reference model; non-trivial = contains an Update; distinct by operation sequence / document text".into(),
+        rule: "forward: single-replica flows of valid operations with hostile strings, sub-second timestamps, undo points, deletes of populated tasks and marker-carrying old values, every segment at the Server boundary validated strictly and compared (order and content) with the committed operations; race-disjoint: >1MB pending sets sent as several versions while another writer's version on a different task lands right before the n-th add_version (rejection + retry), concatenated versions compared with the committed order; converse: hand-written documents (field order, whitespace, \\u escapes, 0/3/6/9-digit timestamps, invalid-but-well-formed operations) pre-loaded on the harness server and applied by a fresh replica, compared with the reference model; non-trivial = contains an Update; distinct by operation sequence / document text".into(),
         exhaustive: None,
         acc,
         assumptions: vec![
